@@ -4,6 +4,7 @@
 mod rng;
 mod lattice;
 mod resp;
+mod routing;
 use std::panic;
 
 pub struct Found {
@@ -42,6 +43,7 @@ fn main() {
     let res: Option<Found> = match unit.as_str() {
         "lattice" => lattice::search(&pid, &oid, seed),
         "resp_codec" => resp::search(&pid, &oid, seed),
+        "routing" => routing::search(&pid, &oid, seed),
         _ => None,
     };
     match res {
